@@ -237,7 +237,7 @@ def formula_calls(e, out=None):
   return out
 
 
-RESERVED = {"r", "e", "pi", "inf", "if", "and", "or", "not", "exp", "log", "sin", "cos", "tan", "abs", "min", "max",
+RESERVED = {"r", "rij", "x1", "e", "pi", "inf", "if", "and", "or", "not", "exp", "log", "sin", "cos", "tan", "abs", "min", "max",
             "sum", "mul", "avg", "pow", "sqrt", "erf", "erfc", "floor", "ceil", "round", "true", "false", "var",
             "for", "while", "repeat", "until", "switch", "case", "default", "return", "break", "continue", "null",
             "in", "like", "ilike", "mod", "nand", "nor", "xor", "xnor", "shl", "shr", "swap", "const", "epsilon",
@@ -272,6 +272,7 @@ def gen_custom_forms(rng, n, reg0=False, tables=None):
       if pn.lower() in RESERVED or pn.lower() in set(x.lower() for x in pnames) or pn.lower() == rname.lower():
         continue
       pnames.append(pn)
+      used.add(pn)   # a later form or table must not take the name of a parameter (exprtk: variable/function clash)
     params = [rname] + pnames
     expr = gen_formula(rng, params, reg0=reg0, forms=list(forms), tables=tables)
     forms.append({"name": name, "params": params, "expr": expr, "breaks": formula_breaks(expr)})
